@@ -1886,3 +1886,118 @@ def signed_index_lower_bound(prog, rule, units=("parser.c", "utils.c", "ciffile.
                                % (var, t, (path(strip(x.get("base"))) or "the array"), x.get("l"), src, var))
     return n
 
+
+
+def wide_copy_sizes(prog, rule):
+    """memcpy / memmove / memset count bytes; ICU's u_memcpy / u_memmove count UChars.  A call of the byte family whose destination
+    points to objects wider than a byte must have a size argument built with sizeof (else it moves only a fraction of the
+    objects it names); a call of the UChar family must not multiply by sizeof(UChar)."""
+    n = 0
+    byte_like = ("void", "char", "unsigned char", "signed char", "uint8_t", "int8_t")
+    for fn in prog.all_functions():
+        for (b, i, r, c) in fn.calls():
+            cal = c.get("callee")
+            if cal not in ("memcpy", "memmove", "memset", "u_memcpy", "u_memmove", "u_memset"):
+                continue
+            args = c.get("args", [])
+            if len(args) < 3:
+                continue
+            n += 1
+            key = "%s:%s@L%s" % (fn.name, cal, c.get("l"))
+            has_sizeof = any(isinstance(x, dict) and x.get("k") == "sizeof" for x in walk(args[2]))
+            if cal.startswith("u_"):
+                if has_sizeof:
+                    rule.violation(fn.file, fn.name, c.get("l"), "uchar-count-in-bytes:%s:%s" % (fn.name, cal),
+                                   "%s counts UChars, but its count `%s` is multiplied by a sizeof: twice as many are moved"
+                                   % (cal, show(args[2])[:60]))
+                else:
+                    rule.ok(key, "count in UChars")
+                continue
+            t = (strip(args[0]).get("t") or "") if isinstance(strip(args[0]), dict) else ""
+            pointee = t.replace("const", "").replace("*", " ").strip() if t.count("*") == 1 else ("pointer" if t.count("*") > 1 else "")
+            if not pointee or pointee in byte_like:
+                rule.ok(key, "byte-sized destination elements")
+            elif has_sizeof:
+                rule.ok(key, "size built with sizeof")
+            else:
+                # a size held in a local computed with sizeof
+                sz = strip(args[2])
+                okv = False
+                if isinstance(sz, dict) and sz.get("k") == "ref":
+                    from .writerrules import _defs_of
+                    defs = _defs_of(fn, sz.get("name"))
+                    okv = bool(defs) and all(any(isinstance(x, dict) and x.get("k") == "sizeof" for x in walk(d)) for d in defs)
+                if okv:
+                    rule.ok(key, "size held in a local computed with sizeof")
+                else:
+                    rule.violation(fn.file, fn.name, c.get("l"), "wide-copy-size-not-in-bytes:%s:%s" % (fn.name, cal),
+                                   "%s moves bytes, its destination `%s` points to `%s` objects, and the size `%s` is not built with "
+                                   "sizeof: only a fraction of the objects is moved" % (cal, show(args[0])[:40], pointee, show(args[2])[:60]))
+    return n
+
+
+def free_after_transfer(prog, rule):
+    """After `X->f = p` (p a local pointer) the object p points to belongs to X.  A later free(p) on a path where neither p nor
+    X->f was re-assigned is right only if X itself is being thrown away on that path (its shell is released too, the usual
+    clean-up ladder of a constructor); if X stays alive - an entry that was found in a table, an object of the caller - X->f
+    dangles and the block is released a second time when X is torn down.
+    Not judged: stores and frees inside the uthash and DESERIALIZE macro families (own rules), and X a structure local to
+    the function (it dies with the call)."""
+    n = 0
+    SKIP_MS = ("HASH_ADD", "HASH_ADD_KEYPTR", "HASH_MAKE_TABLE", "DESERIALIZE", "DESERIALIZE_USTRING", "DESERIALIZE_CHAR")
+    releasers = re.compile(r"^(free|cif_\w+_free|cif_value_free)$")
+    for fn in prog.all_functions():
+        local_structs = {v["name"] for v in fn.locals if "*" not in v.get("t", "")}
+        local_names = {v["name"] for v in fn.locals} | {p["name"] for p in fn.params}
+        stores = []
+        for (b, i, r, x) in fn.eval_sites("asg"):
+            if x.get("op") != "=" or set(x.get("ms") or []) & set(SKIP_MS) or any(m.startswith("DESERIALIZE") or m.startswith("HASH_") for m in (x.get("ms") or [])):
+                continue
+            l, rr = strip(x.get("lhs")), strip(x.get("rhs"))
+            lp = path(l)
+            rp = path(rr) if isinstance(rr, dict) else None
+            if not lp or not rp or rp not in local_names or "*" not in (rr.get("t") or ""):
+                continue
+            if "->" not in lp and "." not in lp:
+                continue
+            root = re.match(r"[\(\*&]*(\w+)", lp).group(1)
+            if root in local_structs:
+                continue
+            stores.append((b, i, x, lp, rp, root))
+        for (b, i, x, lp, rp, root) in stores:
+            barrier = set()
+            for (b2, i2, r2, y) in fn.eval_sites("asg"):
+                p2 = path(strip(y.get("lhs")))
+                if p2 in (rp, lp) and y.get("id") != x.get("id"):
+                    barrier.add(b2.id)
+            after = cfgq.reach(fn, [b.id], barrier_blocks=barrier)
+            root_rel = [(b4.id, i4) for (b4, i4, r4, c4) in fn.calls() if c4.get("callee") and releasers.match(c4["callee"])
+                        and c4.get("args") and (path(strip(c4["args"][0])) == root
+                                                or re.match(r"^[\(\*&]*%s(->|\.)as_value\)?$" % re.escape(root), show(c4["args"][0])))]
+            frees = [(b3, i3, c) for (b3, i3, r3, c) in fn.calls_to("free")
+                     if c.get("args") and path(strip(c["args"][0])) == rp
+                     and not any(m.startswith("DESERIALIZE") or m.startswith("HASH_") for m in (c.get("ms") or []))
+                     and ((b3.id in after and b3.id != b.id and b3.id not in barrier) or (b3.id == b.id and i3 > i))]
+            if not frees:
+                continue
+            n += 1
+            key = "%s:%s=%s@L%s" % (fn.name, lp, rp, x.get("l"))
+            bad = None
+            for (b3, i3, c) in frees:
+                # X is thrown away: a release of X's root lies on every path from this free to the exit, or precedes it
+                rel_blocks = {rb for (rb, ri) in root_rel}
+                before = any((rb == b3.id and ri < i3) for (rb, ri) in root_rel) or \
+                    any(rb in cfgq.reach(fn, [b.id], barrier_blocks=[b3.id]) and rb != b3.id for rb in rel_blocks)
+                later = bool(rel_blocks) and fn.exit not in cfgq.reach(fn, [b3.id], barrier_blocks=rel_blocks - {b3.id}) \
+                    or any((rb == b3.id and ri > i3) for (rb, ri) in root_rel)
+                if not (before or later):
+                    bad = c
+                    break
+            if bad is None:
+                rule.ok(key, "the owner `%s` is released on the paths that free `%s`" % (root, rp))
+            else:
+                rule.violation(fn.file, fn.name, bad.get("l"), "freed-after-transfer:%s:%s" % (fn.name, lp),
+                               "`%s` was stored into `%s` at L%s and is freed at L%s while `%s` stays alive (it is not released on that "
+                               "path): the field dangles and the block is released again when the owner is torn down"
+                               % (rp, lp, x.get("l"), bad.get("l"), root))
+    return n
